@@ -466,9 +466,33 @@ func TestC09(t *testing.T) {
 			if !inScope {
 				continue
 			}
+			// each value once as it is and, for the activity types, once more with the type name in another letter case (types are compared
+			// ignoring case, so "like" is a Like: what holds for the one holds for the other)
+			type sv struct {
+				x    ap.Item
+				v    c09Variant
+				tcas string
+			}
+			var all []sv
 			for _, v := range c09Variants(c.Value, c.Field) {
+				all = append(all, sv{c.Value, v, ""})
+			}
+			if c.Type.Name() == "Activity" || c.Type.Name() == "IntransitiveActivity" || c.Type.Name() == "Question" || c.Type.Name() == "Actor" {
+				for _, flip := range []func(string) string{strings.ToLower, strings.ToUpper} {
+					x2 := vocab.CloneItem(c.Value)
+					tf := reflect.ValueOf(x2).Elem().FieldByName("Type")
+					tf.SetString(flip(tf.String()))
+					for _, v := range c09Variants(x2, c.Field) {
+						all = append(all, sv{x2, v, " type=" + tf.String()})
+					}
+				}
+			}
+			for _, e := range all {
+				v := e.v
+				c := c
+				c.Value = e.x
 				total++
-				cell := c.ID + " / " + v.name
+				cell := c.ID + e.tcas + " / " + v.name
 				if !r.WantCell(cell) {
 					continue
 				}
